@@ -100,6 +100,27 @@ CycleVals ==
      O1(Ka, S!Obj(<<TJ(1, [k |-> "ret", v |-> IntV(5)]), S!Mem(Kb, S!Up(2))>>)),
      O2(Ka, TObj(1, [k |-> "key"]), Kb, A1(S!Up(2)))}
 
+(* members NAMED toJSON holding every kind of value: 15.12.3 Str step 2.b    *)
+(* calls the member only "if IsCallable(toJSON)"; anything else is data      *)
+RetFn(id, v) == S!Fn(id, [k |-> "ret", v |-> v])
+TJKinds ==
+    {Null, Undef, BoolV(TRUE), BoolV(FALSE), IntV(1), NumV(NaN), NumV(NZero), StrV(<<115>>), StrV(<<>>),               \* primitives of each type
+     S!Obj(<<>>), O1(<<120>>, IntV(2)), O2(Kb, IntV(1), Ka, StrV(<<121>>)), S!Arr(<<>>), A2(IntV(1), IntV(2)), A1(O1(Ka, Null)),  \* plain objects and arrays
+     O1(S_toJSON, O1(S_toJSON, IntV(1))), A1(O1(S_toJSON, S!Arr(<<>>))),                                               \* the name again inside the data
+     O1(S_toJSON, RetFn(4, IntV(8))),                                                                                  \* data holding an object that HAS a method
+     S!Wrap("Number", IntV(1)), S!Wrap("String", StrV(<<115>>)), S!Wrap("Boolean", BoolV(FALSE)),                     \* wrapper objects (objects, not callable)
+     PlainFn,                                                                                                          \* functions returning each kind
+     RetFn(1, Null), RetFn(1, BoolV(TRUE)), RetFn(1, IntV(7)), RetFn(1, StrV(<<115>>)), RetFn(1, S!Obj(<<>>)), RetFn(1, O1(<<120>>, IntV(2))),
+     RetFn(1, A2(IntV(1), IntV(2))), RetFn(1, PlainFn), RetFn(1, S!Wrap("Number", IntV(1))), RetFn(1, O1(S_toJSON, A1(IntV(3)))),
+     S!Fn(1, [k |-> "key"]), S!Fn(1, [k |-> "self"])}
+TJHolders(k) == {O1(S_toJSON, k), O2(Ka, IntV(1), S_toJSON, k), O2(S_toJSON, k, Ka, IntV(1))}
+ToJSONDataVals ==
+    UNION {UNION {{h, O1(Kb, h), O2(Ka, IntV(1), Kb, h), A1(h), A2(IntV(1), h), A1(A1(h))} : h \in TJHolders(k)} : k \in TJKinds}
+ToJSONDataReps ==
+    {[k |-> "none"], [k |-> "id"], [k |-> "num2str"],
+     [k |-> "list", items |-> <<StrV(S_toJSON), StrV(Ka), StrV(S_x)>>], [k |-> "list", items |-> <<StrV(Ka), StrV(Kb)>>],
+     [k |-> "undefkey", key |-> S_toJSON], [k |-> "replkey", key |-> S_toJSON, v |-> A1(IntV(5))]}
+
 NoRp == [k |-> "none"]
 NoSp == [t |-> "absent"]
 K1 == <<49>>
@@ -176,8 +197,8 @@ SeqSet(sq) == {sq[i] : i \in 1..Len(sq)}
 ParseCase(text, rv) == [fam |-> "parse", text |-> text, rv |-> rv]
 StrCase(v, rp, sp) == [fam |-> "str", v |-> v, rp |-> rp, sp |-> sp]
 StrValues == Atoms \cup Extremes \cup Depth1 \cup Depth2 \cup ToJSONVals \cup CycleVals
-RtValues == {v \in Atoms \cup Depth1 \cup Depth2 : Representable(v)}
-RtTexts == SeqSet(BaseTexts) \cup SeqSet(BaseTextsMore) \cup SeqSet(ExtraTexts) \cup (IF Deep THEN SeqSet(ExtraHeavyTexts) ELSE {})
+RtValues == {v \in Atoms \cup Depth1 \cup Depth2 \cup ToJSONDataVals : Representable(v)}
+RtTexts == SeqSet(ToJSONTexts) \cup SeqSet(BaseTexts) \cup SeqSet(BaseTextsMore) \cup SeqSet(ExtraTexts) \cup (IF Deep THEN SeqSet(ExtraHeavyTexts) ELSE {})
 
 (* values written directly in JavaScript: what 15.12.3 sees of them is the   *)
 (* model value v (own enumerable data, [[Class]], [[PrimitiveValue]])        *)
@@ -203,13 +224,24 @@ SpecialCases ==
      Special("new Date(NaN)", Null, NoSp),
      Special("(function(){var s={a:1};return [s,s,{x:s}]})()", S!Arr(<<SharedObj, SharedObj, O1(<<120>>, SharedObj)>>), NoSp),  \* shared, not cyclic
      Special("(function(){var s=[1];return {p:s,q:{r:s}}})()", O2(<<112>>, A1(IntV(1)), <<113>>, O1(<<114>>, A1(IntV(1)))), IntV(1)),
-     Special("Object.keys({b:1,a:2})", A2(StrV(Kb), StrV(Ka)), NoSp)}
+     Special("Object.keys({b:1,a:2})", A2(StrV(Kb), StrV(Ka)), NoSp),
+     \* a toJSON property on an array / function / wrapper: data unless callable
+     Special("(function(){var a=[1];a.toJSON={x:1};return a})()", A1(IntV(1)), NoSp),
+     Special("(function(){var a=[1];a.toJSON=[2];return {k:a}})()", O1(<<107>>, A1(IntV(1))), NoSp),
+     Special("(function(){var a=[1];a.toJSON=function(){return 7};return [a]})()", A1(IntV(7)), NoSp),
+     Special("(function(){var n=new Number(1);n.toJSON={x:1};return [n]})()", A1(IntV(1)), NoSp),
+     Special("(function(){var n=new String('s');n.toJSON=function(k){return 'K'+k};return {q:n}})()", O1(<<113>>, StrV(<<75, 113>>)), NoSp),
+     Special("(function(){var p={toJSON:{x:1}};var o=Object.create(p);o.a=1;return o})()", O1(Ka, IntV(1)), NoSp),              \* inherited non-callable toJSON
+     Special("(function(){var p={toJSON:function(){return 9}};var o=Object.create(p);o.a=1;return [o]})()", A1(IntV(9)), NoSp)}    \* inherited method: [[Get]]
 
 (* TLC evaluates constant definitions once per worker at start-up: the      *)
 (* explicit families are built only for the run that uses them               *)
 ListCases ==
     IF Fam # "list" THEN {} ELSE
-    {ParseCase(t, NoRv) : t \in SeqSet(ExtraTexts) \cup SeqSet(ExtraHeavyTexts) \cup SeqSet(SurrTexts) \cup SeqSet(BaseTextsMore)}
+    {ParseCase(t, NoRv) : t \in SeqSet(ExtraTexts) \cup SeqSet(ExtraHeavyTexts) \cup SeqSet(SurrTexts) \cup SeqSet(BaseTextsMore) \cup SeqSet(ToJSONTexts)}
+    \cup {ParseCase(t, [k |-> "id"]) : t \in SeqSet(ToJSONTexts)}
+    \cup {StrCase(v, rp, NoSp) : v \in ToJSONDataVals, rp \in ToJSONDataReps}
+    \cup {StrCase(v, NoRp, IntV(1)) : v \in ToJSONDataVals}
     \cup {ParseCase(t, rv) : t \in SeqSet(ReviveTexts), rv \in Revivers}
     \cup {[fam |-> "parsearg", arg |-> a] : a \in ParseArgs}
     \cup {StrCase(v, NoRp, NoSp) : v \in StrValues}
